@@ -2,7 +2,7 @@
       and the step lemma of the refinement. *)
 From Coq Require Import ZArith List String Bool Lia Permutation.
 From Texel Require Import Pipe.Model Pipe.ProofsBase Pipe.ProofsInv Pipe.ProofsLive Pipe.Skeleton Pipe.SkeletonSem Pipe.SkeletonSim
-  Pipe.ProofsSkeleton Pipe.ConversePc Pipe.ConversePcSn Pipe.ProofsConversePc Pipe.ProofsConversePcSn Pipe.Converse
+  Pipe.ProofsSkeleton Pipe.ConversePc Pipe.ConversePcSn Pipe.ProofsConversePc Pipe.ProofsConversePcSn Pipe.Converse Pipe.ConverseRank
   Pipe.ProofsConverse1 Pipe.ProofsConverse2 Pipe.ProofsConverse3 Pipe.ProofsConverse4 Pipe.ProofsConverse5 Pipe.ProofsConverse6
   Pipe.ProofsConverse7.
 Import ListNotations.
@@ -138,7 +138,7 @@ Lemma step_sync : forall cfg roles chans wgs s sd rc g' ev,
   NoDup (c_targets cfg) ->
   coh cfg roles chans wgs s -> s_panic s = None ->
   gstep P (MkG (map (th_of (c_targets cfg)) roles) chans wgs None) (ASync sd rc) = Some (g', ev) ->
-  exists s', mstep cfg s s' /\ skel_rel cfg g' s'.
+  exists s', rstep cfg roles s g' s'.
 Proof.
   intros cfg roles chans wgs s sd rc g' ev Hndts Hcoh Hpan Hg.
   set (ts := c_targets cfg) in *.
@@ -168,8 +168,8 @@ Proof.
     assert (Hsn : s_sn s = SRecv).
     { destruct Hlate as (wch & wrest & prt & _ & _ & Hsn & _). unfold sn_clause in Hsn. rewrite Hlkb in Hsn. apply Hsn. }
     destruct Hrd as (f & r & Hrd).
-    exists (set_sn (set_rd s (RdRun r)) (SHave f)). split.
-    + right. exists LReadSend. rewrite (step_late _ _ _ pm Hpan Hmain). cbn. now rewrite Hrd, Hsn.
+    exists (set_sn (set_rd s (RdRun r)) (SHave f)). right. split.
+    + exists LReadSend. rewrite (step_late _ _ _ pm Hpan Hmain). cbn. now rewrite Hrd, Hsn.
     + apply skel_rel_intro; [exact Hpan|].
       eapply (coh_upd2 cfg roles sd rc (RoRead D2) (RoSnap SRv)); eauto; try discriminate.
       assert (L1 : late cfg pm (upd_nth sd (RoRead D3) roles) chans wgs (set_rd s (RdRun r))).
@@ -199,8 +199,8 @@ Proof.
     destruct L1 as (wch & wrest & prt & Hch1 & Hwg1 & Hsn1 & Hrd1 & Hrt1 & (done & Hcore & Hview)).
     rewrite (lk_nth _ _ _ Hnd1 Hb1 : lk KRouter _ = _) in Hrt1. inversion Hrt1; subst prt. clear Hrt1.
     cbn [rt_core s_rt s_wr s_wgR set_sn] in Hcore. destruct Hcore as (Hrc & -> & Hrt0 & Hopen).
-    exists (set_rt (set_sn s (Model.SSend id ord r)) (THave z (id, g0))). split.
-    + right. exists (LSnapSend z). rewrite (step_late _ _ _ pm Hpan Hmain). cbn. now rewrite Hsn, Htp, Hrt0.
+    exists (set_rt (set_sn s (Model.SSend id ord r)) (THave z (id, g0))). right. split.
+    + exists (LSnapSend z). rewrite (step_late _ _ _ pm Hpan Hmain). cbn. now rewrite Hsn, Htp, Hrt0.
     + apply skel_rel_intro; [exact Hpan|].
       eapply (coh_upd2 cfg roles sd rc (RoSnap (IS j z)) (RoRouter (TRv (chmap done)))); eauto; try discriminate.
       rewrite Hch1, Hwg1.
@@ -223,8 +223,8 @@ Proof.
     destruct Hrc as (Hperm & Hwrest & Hlen & Hkeys).
     assert (Hndd : NoDup done) by (eapply Permutation_NoDup; [apply Permutation_sym; exact Hperm | exact Hndts]).
     set (ws' := upd_writer tm (w_set_st (WHold m)) (s_wr s)).
-    exists (set_rt (set_wr s ws') TRecv). split.
-    + right. exists LDeliver. rewrite (step_late _ _ _ pm Hpan Hmain). cbn. now rewrite Hrt0, Hfw, Hcl, Hwr.
+    exists (set_rt (set_wr s ws') TRecv). right. split.
+    + exists LDeliver. rewrite (step_late _ _ _ pm Hpan Hmain). cbn. now rewrite Hrt0, Hfw, Hcl, Hwr.
     + apply skel_rel_intro; [exact Hpan|].
       set (ra := RoRouter (TG6 (chmap_from 0 done) (VChan (2 + i)))).
       set (rb := RoWriter chm tm VAny (2 + i) (WG true)).
@@ -255,16 +255,16 @@ Proof.
 Qed.
 
 (** ** The step lemma of the refinement: every step of the skeleton semantics whose data choice is the one the model
-    state dictates is matched by at most one step of the model *)
+    state dictates is matched by at most one step of the model.  Ranked form: a step that leaves the model state
+    unchanged lowers the sum of the ranks of the goroutines (Pipe/ConverseRank.v) or is inside a pure callee. *)
 
-Theorem conv_step : forall cfg g s a g' ev, NoDup (c_targets cfg) ->
-  skel_rel cfg g s -> gstep P g a = Some (g', ev) -> data_ok s g a ->
-  exists s', mstep cfg s s' /\ skel_rel cfg g' s'.
+Theorem conv_step_ranked : forall cfg roles chans wgs s a g' ev, NoDup (c_targets cfg) ->
+  coh cfg roles chans wgs s -> s_panic s = None ->
+  gstep P (MkG (map (th_of (c_targets cfg)) roles) chans wgs None) a = Some (g', ev) ->
+  data_ok s (MkG (map (th_of (c_targets cfg)) roles) chans wgs None) a ->
+  exists s', rstep cfg roles s g' s'.
 Proof.
-  intros cfg g s a g' ev Hnd Hrel Hg Hd. unfold skel_rel in Hrel.
-  destruct g as [ths chans wgs pan]. cbn [g_panic g_threads g_chans g_wgs] in Hrel.
-  destruct pan as [what|]; [unfold gstep in Hg; cbn in Hg; discriminate|].
-  destruct (s_panic s) eqn:Hpan; [contradiction|]. destruct Hrel as (roles & -> & Hcoh).
+  intros cfg roles chans wgs s a g' ev Hnd Hcoh Hpan Hg Hd.
   destruct a as [t c|sd rc].
   - assert (Hin : exists ro, nth_error roles t = Some ro).
     { unfold gstep in Hg. cbn [g_panic g_threads] in Hg. destruct (nth_error (map (th_of (c_targets cfg)) roles) t) eqn:E; [|discriminate].
@@ -278,6 +278,18 @@ Proof.
     + eapply step_read; eauto.
     + eapply step_writer; eauto.
   - eapply step_sync; eauto.
+Qed.
+
+Theorem conv_step : forall cfg g s a g' ev, NoDup (c_targets cfg) ->
+  skel_rel cfg g s -> gstep P g a = Some (g', ev) -> data_ok s g a ->
+  exists s', mstep cfg s s' /\ skel_rel cfg g' s'.
+Proof.
+  intros cfg g s a g' ev Hnd Hrel Hg Hd. unfold skel_rel in Hrel.
+  destruct g as [ths chans wgs pan]. cbn [g_panic g_threads g_chans g_wgs] in Hrel.
+  destruct pan as [what|]; [unfold gstep in Hg; cbn in Hg; discriminate|].
+  destruct (s_panic s) eqn:Hpan; [contradiction|]. destruct Hrel as (roles & -> & Hcoh).
+  destruct (conv_step_ranked cfg roles chans wgs s a g' ev Hnd Hcoh Hpan Hg Hd) as (s' & Hr).
+  exists s'. eapply rstep_mstep; eauto.
 Qed.
 
 Lemma skel_rel_init : forall cfg, skel_rel cfg (ginit P (c_targets cfg)) (init cfg).
